@@ -217,3 +217,34 @@ func GeneratesQn(g, p, q *big.Int) bool {
 	qq := new(big.Int).Rsh(new(big.Int).Sub(q, one), 1)
 	return new(big.Int).Exp(g, pp, N).Cmp(one) != 0 && new(big.Int).Exp(g, qq, N).Cmp(one) != 0
 }
+
+// QnStatementTrue decides the statement "exists x: gx = g^x and hx = h^x, all four
+// elements in Qn" for N = p*q (safe primes) when every element that lies in Qn is
+// given by its exponent with respect to a fixed generator pair: g' = G^a1,
+// gx' = G^a2, h' = H^b1, hx' = H^b2 with a1, b1 in {0, 1} (G, H of full order
+// m = p'q'). inQn lists, for (g', gx', h', hx'), whether the element is in Qn at
+// all (decided by InQn on the value); a statement with an element outside Qn - in
+// particular a non-unit - is not a valid statement and counts as false.
+func QnStatementTrue(p, q *big.Int, inQn [4]bool, a1 int, a2 *big.Int, b1 int, b2 *big.Int) bool {
+	for _, ok := range inQn {
+		if !ok {
+			return false
+		}
+	}
+	one := big.NewInt(1)
+	pp := new(big.Int).Rsh(new(big.Int).Sub(p, one), 1)
+	qq := new(big.Int).Rsh(new(big.Int).Sub(q, one), 1)
+	m := new(big.Int).Mul(pp, qq)
+	z := func(v *big.Int) bool { return new(big.Int).Mod(v, m).Sign() == 0 }
+	switch {
+	case a1 == 1 && b1 == 1: // x = a2 forced (mod m)
+		return z(new(big.Int).Sub(a2, b2))
+	case a1 == 1 && b1 == 0: // x = a2, need 0*x = b2
+		return z(b2)
+	case a1 == 0 && b1 == 1: // need a2 = 0, then x = b2 works
+		return z(a2)
+	case a1 == 0 && b1 == 0:
+		return z(a2) && z(b2)
+	}
+	panic("c16ref: a1, b1 must be 0 or 1")
+}
